@@ -74,7 +74,7 @@ def showOa : OaEv → String
   | .chunk c cs f => s!"k:{hexOrDash c}:{showCalls cs}:{optHex f}"
   | .usage u => s!"u:{showUsage u}"
   | .done => "D"
-  | .chat c cs f u => s!"K:{hexOrDash c}:{showCalls cs}:{optHex f}:{showUsage u}"
+  | .chat n c cs f u => s!"K:m{b01 n}:{hexOrDash c}:{showCalls cs}:{optHex f}:{showUsage u}"
   | .tchunk t f u => s!"t:{hexOrDash t}:{optHex f}:{match u with | none => "-" | some u => showUsage u}"
   | .text t f u => s!"T:{hexOrDash t}:{optHex f}:{showUsage u}"
   | .error e => s!"E:{hexOrDash e}"
